@@ -60,4 +60,22 @@ mod verif_standins {
             assert!(!rc.verify_range_constraint(&params, c, expected + Scalar::one()), "STANDIN range.verify_range_constraint: mislinked constraint accepted");
         }
     }
+
+    /// the challenge depends on every digit signature and on the public key of the parameters (C06 / C02)
+    #[test]
+    fn standin_range_params_challenge() {
+        let mut rng = rng();
+        let honest = RangeConstraintParameters::new(&mut rng);
+        let other = RangeConstraintParameters::new(&mut rng);
+        let chal = |p: &RangeConstraintParameters| ChallengeBuilder::new().with(p).finish().to_scalar();
+        assert_eq!(chal(&honest), chal(&honest.clone()), "STANDIN range parameters challenge: not deterministic");
+        for i in [0usize, 1, 64, 126, 127] {
+            let mut v = honest.clone(); v.digit_signatures[i] = other.digit_signatures[i];
+            assert_ne!(chal(&honest), chal(&v), "STANDIN range parameters challenge: digit signature {} does not enter the challenge", i);
+        }
+        let mut v = honest.clone(); v.digit_signatures.swap(3, 100);
+        assert_ne!(chal(&honest), chal(&v), "STANDIN range parameters challenge: order of digit signatures does not enter the challenge");
+        let mut v = honest.clone(); v.public_key = other.public_key.clone();
+        assert_ne!(chal(&honest), chal(&v), "STANDIN range parameters challenge: public key does not enter the challenge");
+    }
 }
